@@ -262,7 +262,7 @@ __strpd_card(struct strpd_s *d, const char *sp, struct dt_spec_s s, char **ep)
 		res = 0 - (d->y < 0);
 		break;
 	case DT_SPFL_N_MON:
-		d->m = strtoi_lim(sp, &sp, 0, GREG_MONTHS_P_YEAR);
+		d->m = padstrtoi_lim(sp, &sp, 0, GREG_MONTHS_P_YEAR);
 		res = 0 - (d->m < 0);
 		break;
 	case DT_SPFL_N_DCNT_MON:
@@ -277,13 +277,13 @@ __strpd_card(struct strpd_s *d, const char *sp, struct dt_spec_s s, char **ep)
 		break;
 	case DT_SPFL_N_DCNT_WEEK:
 		/* ymcw mode? */
-		d->w = strtoi_lim(sp, &sp, 0, GREG_DAYS_P_WEEK);
+		d->w = padstrtoi_lim(sp, &sp, 0, GREG_DAYS_P_WEEK);
 		/* fix up d->w right away */
 		res = 0 - (d->w < 0);
 		break;
 	case DT_SPFL_N_WCNT_MON:
 		/* ymcw mode? */
-		d->c = strtoi_lim(sp, &sp, 0, 5);
+		d->c = padstrtoi_lim(sp, &sp, 0, 5);
 		res = 0 - (d->c < 0);
 		break;
 	case DT_SPFL_S_WDAY:
@@ -382,14 +382,14 @@ __strpd_card(struct strpd_s *d, const char *sp, struct dt_spec_s s, char **ep)
 		break;
 	case DT_SPFL_N_DCNT_YEAR:
 		/* was %D and %j, cannot be used at the moment */
-		if ((d->d = strtoi_lim(sp, &sp, 1, 366)) >= 0) {
+		if ((d->d = padstrtoi_lim(sp, &sp, 1, 366)) >= 0) {
 			res = 0;
 			d->flags.d_dcnt_p = 1;
 		}
 		break;
 	case DT_SPFL_N_WCNT_YEAR:
 		/* was %C, cannot be used at the moment */
-		d->c = strtoi_lim(sp, &sp, 0, 53);
+		d->c = padstrtoi_lim(sp, &sp, 0, 53);
 		d->flags.wk_cnt = s.wk_cnt;
 		/* let everyone know d->c has a week-count in there */
 		d->flags.c_wcnt_p = 1;
